@@ -59,6 +59,7 @@ def run(ctx):
     r3_state_machine(chk, fx)
     r4_r5_locks(chk, fx)
     r6_crosscheck(chk, fx)
+    r7_table_integrity(chk, fx)
 
 
 # ---------------------------------------------------------------------------------------------
@@ -460,3 +461,37 @@ def r6_crosscheck(chk, fx):
         ops.append(sorted({(x["pl"].get("p") or [""])[-1] for x in o if x["k"] == "place"}))
     chk.instance("C05/R6", "the comparison is between the two message_id fields", b.name, ne[0].loc(),
                  holds=all(".message_id" in x for x in ops), key="C05/R6 try_from compared-fields")
+
+
+# ---------------------------------------------------------------------------------------------
+def r7_table_integrity(chk, fx):
+    """A reply parked for its owner (Ready) or a slot waiting for its reply (Pending) must stay in the table until the owner takes it:
+    (a) no entry leaves the table except its own, after its reply was delivered (same site rule as C18/R4); (b) nothing is stored
+    over an existing entry: the only insertion is into a vacant slot."""
+    from . import c18
+    n_rm = n_ins = 0
+    for name, b in sorted(fx.mir.items()):
+        if b.crate != "netconf" or "::tests::" in name:
+            continue
+        for c in b.calls():
+            if c.macro or not any("OutstandingRequest" in g for g in (c.gargs or [])):
+                continue
+            if c.is_fn(*c18.REMOVERS):
+                n_rm += 1
+                ok = False
+                if name.startswith(c18.SESSION + "::recv::"):
+                    deliver = [x for x in b.calls() if x.is_fn("TryInto::try_into", "TryFrom::try_from", "Reply::<O>::into_result") and not x.macro]
+                    ok = any(b.dominates(x.bb, c.bb) for x in deliver)
+                chk.instance("C05/R7", "entry leaves the request table only after its own reply was delivered", name, c.loc(), holds=ok,
+                             key="C05/R7 request-table entry removed in %s" % T.strip_generics(name),
+                             detail="a reply already parked for (or still to arrive for) the removed id is lost: its owner gets RequestNotFound")
+            elif c.is_fn("HashMap::<K, V, S, A>::insert", "OccupiedEntry::<'a, K, V, A>::insert", "HashMap::<K, V, S, A>::extend"):
+                n_ins += 1
+                chk.instance("C05/R7", "no store over an existing request-table entry", name, c.loc(), holds=False,
+                             key="C05/R7 request-table entry overwritten in %s" % T.strip_generics(name),
+                             detail="an unconditional insert replaces whatever is parked under that id")
+            elif c.is_fn("VacantEntry::<'a, K, V, A>::insert", "VacantEntry::<'a, K, V, A>::insert_entry"):
+                n_ins += 1
+                chk.instance("C05/R7", "insertion into a vacant slot only", name, c.loc(), holds=True)
+    chk.instance("C05/R7", "request table: %d insertion site(s), %d removal site(s)" % (n_ins, n_rm), "netconf", None, holds=n_ins >= 1,
+                 key="C05/R7 no-registration-site")
